@@ -103,11 +103,11 @@ def spki(pub):
 ALG = D.enc_seq(D.enc_oid(D.OID_SM2SIGN_SM3))
 
 
-def tbs(serial, issuer, not_before, not_after, subject, pub, exts=(), version=2):
+def tbs(serial, issuer, not_before, not_after, subject, pub, exts=(), version=2, alg=None):
     items = []
     if version is not None and version != 0:
         items.append(D.enc_explicit(0, D.enc_uint(version)))
-    items += [D.enc_uint(serial), ALG, issuer, D.enc_seq(enc_time(not_before), enc_time(not_after)), subject, spki(pub)]
+    items += [D.enc_uint(serial), alg or ALG, issuer, D.enc_seq(enc_time(not_before), enc_time(not_after)), subject, spki(pub)]
     if exts:
         items.append(D.enc_explicit(3, D.enc_seq(*exts)))
     return D.enc_seq(*items)
@@ -133,11 +133,11 @@ def sign_blob(d, pub, data, ident=M.DEFAULT_ID):
         k = k % (M.N - 1) + 1
 
 
-def cert(tbs_der, issuer_d, issuer_pub, bad_sig=None):
+def cert(tbs_der, issuer_d, issuer_pub, bad_sig=None, alg=None):
     sig = sign_blob(issuer_d, issuer_pub, tbs_der)
     if bad_sig == "flip":
         b = bytearray(sig); b[-1] ^= 1; sig = bytes(b)
-    return D.enc_seq(tbs_der, ALG, D.enc_bits(sig))
+    return D.enc_seq(tbs_der, alg or ALG, D.enc_bits(sig))
 
 
 def pem(label, der):
